@@ -16,6 +16,10 @@ pub struct Case {
     pub amount: Uint128,
     /// 0 = as generated, 1 = ascending (the registry's order for delegation), 2 = descending (the hub's order for undelegation)
     pub order: u8,
+    /// system-level case: a generated history whose bonds are checked against the same delegation-plan oracle,
+    /// taken over the *whole registered set* (the plan the hub executes, not the pure function on the list it is handed)
+    #[serde(default, skip_serializing_if = "Option::is_none")]
+    pub system: Option<crate::ops::History>,
 }
 
 const CAP: u128 = 1u128 << 100;
@@ -72,7 +76,7 @@ pub fn strategy() -> BoxedStrategy<Case> {
                 8 => total.saturating_sub(n + r as u128 % 3),
                 _ => big,
             };
-            Case { held: held.into_iter().map(Uint128::new).collect(), amount: Uint128::new(amount), order }
+            Case { held: held.into_iter().map(Uint128::new).collect(), amount: Uint128::new(amount), order, system: None }
         })
         .boxed()
 }
@@ -158,6 +162,87 @@ fn watch_stop() {
     WATCH.lock().unwrap().retain(|(t, _, _)| *t != id);
 }
 
+/// System-level checker: the Delegate messages of every successful bond / reward re-bond, against the plan oracle
+/// over the whole registered set.
+struct SysPlan {
+    seen: bool,
+}
+
+impl crate::hist::Checker for SysPlan {
+    fn step(&mut self, cx: &crate::hist::StepCx, out: &mut CaseResult) {
+        use crate::chain::Ev;
+        use crate::deploy::{HUB, USEI};
+        use crate::ops::ROp;
+        let (o0, o1, step) = (cx.o0, cx.o1, cx.step);
+        if !step.ok() || !matches!(step.rop, ROp::Bond { .. } | ROp::UpdateIndex { .. }) || o0.registry != o1.registry {
+            return;
+        }
+        let evs = step.evs();
+        let mut i = 0;
+        while i < evs.len() {
+            if let Ev::Exec { contract, msg, funds, .. } = &evs[i] {
+                let is_bond = contract == HUB
+                    && (msg.starts_with("{\"bond\"") || msg.starts_with("{\"bond_for_st_sei\"") || msg.starts_with("{\"bond_rewards\""));
+                if is_bond {
+                    let a: u128 = funds.iter().filter(|c| c.denom == USEI).map(|c| c.amount.u128()).sum();
+                    let mut plan: std::collections::BTreeMap<String, u128> = Default::default();
+                    let mut j = i + 1;
+                    while j < evs.len() {
+                        match &evs[j] {
+                            Ev::Delegate { delegator, validator, amount } if delegator == HUB => *plan.entry(validator.clone()).or_default() += *amount,
+                            Ev::WithdrawReward { .. } => {}
+                            _ => break,
+                        }
+                        j += 1;
+                    }
+                    let n = o0.registry.len() as u128;
+                    if n == 0 || a == 0 {
+                        i += 1;
+                        continue;
+                    }
+                    let held = |val: &String| *o0.delegations.get(val).unwrap_or(&0);
+                    let t: u128 = o0.registry.iter().map(held).sum();
+                    let even = (t + a) / n;
+                    let ceil = even + if (t + a) % n != 0 { 1 } else { 0 };
+                    let total: u128 = plan.values().sum();
+                    if total != a {
+                        out.fail(v("system/not-conserved", format!("{}: payment {} but the executed plan {:?} sums to {}", step.desc(), a, plan, total)));
+                        return;
+                    }
+                    for (val, p) in &plan {
+                        if *p == 0 {
+                            continue;
+                        }
+                        let h = held(val);
+                        if h > even {
+                            out.fail(v(
+                                "system/gives-to-validator-above-even-share",
+                                format!("{}: {} already holds {} > even share {} = ({} + {}) / {} over the registered set {:?}, yet receives {}", step.desc(), val, h, even, t, a, n, o0.registry, p),
+                            ));
+                            return;
+                        }
+                        if h + p > ceil {
+                            out.fail(v(
+                                "system/lifts-above-even-share",
+                                format!("{}: {} goes from {} to {} > ceil(({} + {}) / {}) = {} over the registered set {:?} (delegations {:?})", step.desc(), val, h, h + p, t, a, n, ceil, o0.registry, o0.delegations),
+                            ));
+                            return;
+                        }
+                    }
+                    let ds: Vec<u128> = o0.registry.iter().map(held).collect();
+                    if ds.len() >= 2 && ds.iter().max().unwrap() - ds.iter().min().unwrap() > 1 {
+                        self.seen = true;
+                    }
+                }
+            }
+            i += 1;
+        }
+    }
+    fn finish(&mut self, _cfg: &crate::deploy::Cfg, _w: &crate::chain::World, _o: &crate::obs::Obs, out: &mut CaseResult) {
+        out.nontrivial = self.seen;
+    }
+}
+
 pub struct C12;
 
 impl Prop for C12 {
@@ -166,13 +251,28 @@ impl Prop for C12 {
         ID
     }
     fn rule(&self) -> String {
-        "generated direct inputs of calculate_delegations / calculate_undelegations: list length 0..12 (sometimes up to 60), delegations from classes (zeros, ties, near-even +-1, tiny, up to 2^100), as generated / ascending / descending order, amounts 0, 1, remainders mod n, the total, total+1, about half, random, huge (sum + amount < 2^127); non-trivial = n >= 2, non-uniform delegations, amount > 0; distinct by hash of the input".into()
+        "generated direct inputs of calculate_delegations / calculate_undelegations: list length 0..12 (sometimes up to 60), delegations from classes (zeros, ties, near-even +-1, tiny, up to 2^100), as generated / ascending / descending order, amounts 0, 1, remainders mod n, the total, total+1, about half, random, huge (sum + amount < 2^127); plus (1 in 600 cases) generated full-system histories whose executed Delegate messages are held to the same plan oracle over the whole registered set; non-trivial = n >= 2, non-uniform delegations, amount > 0 (system case: a bond onto an uneven layout); distinct by hash of the input".into()
     }
     fn assumptions(&self) -> Vec<String> {
         vec!["sum of delegations + amount < 2^127 (u128-safe range of the functions' own arithmetic)".into(), "termination is judged by a 15 s watchdog per call, confirmed by a 30 s re-run".into()]
     }
     fn strategy(&self, _tier: Tier) -> BoxedStrategy<Case> {
-        strategy()
+        use crate::deploy::cfg_strategy;
+        use crate::ops::{history_strategy, registry_scenario_strategy, uneven_bond_scenario_strategy, Profile};
+        let mut p = Profile::base();
+        p.registry = 8;
+        p.slash = 8;
+        p.bond = 30;
+        p.update_index = 4;
+        p.accrue = 4;
+        p.len = 6..30;
+        let sys = prop_oneof![
+            2 => uneven_bond_scenario_strategy(cfg_strategy()),
+            1 => registry_scenario_strategy(&p, cfg_strategy()),
+            1 => history_strategy(&p, cfg_strategy()),
+        ]
+        .prop_map(|h| Case { held: vec![], amount: Uint128::zero(), order: 0, system: Some(h) });
+        prop_oneof![600 => strategy(), 1 => sys].boxed()
     }
     fn cases(&self, tier: Tier) -> u32 {
         match tier {
@@ -181,6 +281,11 @@ impl Prop for C12 {
         }
     }
     fn check(&self, c: &Case, _lenient: bool) -> CaseResult {
+        if let Some(h) = &c.system {
+            let mut r = crate::hist::run_history(h, true, |_, _, _| SysPlan { seen: false });
+            r.label("system_level_plan");
+            return r;
+        }
         let mut out = CaseResult::default();
         out.work = 2;
         let mut held: Vec<u128> = c.held.iter().map(|x| x.u128()).collect();
